@@ -284,3 +284,28 @@ def ref_pda(spec):
     from vlib.oracles import pda as OP
     states, start, start_stack, finals, tr = spec
     return OP.RefPDA([start], start, start_stack, finals, tr)
+
+
+# ----------------------------------------------------------------------------------------
+# range predicates for contracts, as single solver terms (& / |, no forking)
+
+def rng(x, lo, hi):
+    """lo <= x < hi"""
+    return (lo <= x) & (x < hi)
+
+
+def sparse_ranges(t, n, k):
+    """every triple (q, sym, q') of the flat tuple t has q, q' < n and sym <= k"""
+    ok = True
+    for i in range(len(t) // 3):
+        ok = ok & (0 <= t[3 * i]) & (t[3 * i] < n) & (0 <= t[3 * i + 1]) & (t[3 * i + 1] <= k) \
+            & (0 <= t[3 * i + 2]) & (t[3 * i + 2] < n)
+    return ok
+
+
+def word_ranges(w, wlen, nsym):
+    """0 <= wlen <= len(w); used positions < nsym, unused positions are 0"""
+    ok = (0 <= wlen) & (wlen <= len(w))
+    for i in range(len(w)):
+        ok = ok & (0 <= w[i]) & (w[i] < nsym) & ((i < wlen) | (w[i] == 0))
+    return ok
